@@ -159,6 +159,11 @@ impl Lexicon {
                             features_len += nin;
                         }
                     }
+                    if record_end && nin == 0 {
+                        // The last record ends at the end of the input right after a
+                        // delimiter: there is no terminator to be excluded below.
+                        features_len += 1;
+                    }
                     record_end_pos += nin;
                     record_end
                 }
